@@ -503,6 +503,10 @@ func (v *Validator) typeOfComparison(env *requestEnv, left, right ast.IsNode, ca
 	if rightExpectErr != nil {
 		errs = append(errs, rightExpectErr)
 	}
+	// both operands must have the same type: Long < datetime is a type error at run time
+	if len(errs) == 0 && lt != nil && rt != nil && compareCedarType(lt, rt) != 0 {
+		errs = append(errs, unexpectedTypeErr(cedarTypeName(lt), rt))
+	}
 
 	if len(errs) > 0 {
 		return typeBool{}, caps, errors.Join(errs...)
